@@ -105,12 +105,18 @@ CLAIMED["C08"] = (
     "DESIGN.md sections 2 and 15, C08",
 )
 CLAIMED["C10"] = (
-    "sibling agreement (cross-check) of FermionicArray.conj and .dagger by def-use extraction of five ingredients on helper-inlined bodies",
-    "Static cross-check: conj and dagger agree on new charge, conjugated labels, odd-global-sign condition, the set of legs the "
-    "dual-leg option selects (normalised to original direction by counting .conj() and negations), and apply exactly one kind "
-    "of reversal. Found and fixed the complementary leg set of dagger(phase_dual=True)." + PARTIAL_NOTE,
-    "The norm identities and involution on values are not decided.",
-    "DESIGN.md section 2, C10",
+    "abstract interpretation of conj / dagger / the norm contraction over shaped tokens; sibling agreement (cross-check) of "
+    "FermionicArray.conj and .dagger by def-use extraction on helper-inlined bodies",
+    "Bounded (R10.2-R10.4), for ~130 (quick) / ~1500 (thorough) fermionic token arrays with even and odd parity, labels and pending "
+    "signs: conj twice and dagger twice return the original; dagger(phase_dual=p) equals conj(phase_dual=p) followed by the fermionic "
+    "reversal for both p; x.conj(phase_dual=p) contracted with x over all axes, in either order and every strategy, is the sum of "
+    "tensordot(conj(block), block) over all stored blocks with sign +1 (the squared norm) whenever every index is ket-like or p is "
+    "True. All paths (R10.1): conj and dagger agree on new charge, conjugated labels, odd-global-sign condition, the leg set of the "
+    "dual-leg option, and exactly one kind of reversal. Found and fixed the complementary leg set of dagger(phase_dual=True). " + BOUNDED,
+    "Whole networks conjugated tensor by tensor (the property's network clause) are not enumerated; numbers are not computed. Note: "
+    "the library's docstring also promises the norm for all-bra arrays; odd all-bra arrays give minus the norm, which the property "
+    "does not cover and the check does not demand.",
+    "DESIGN.md sections 2 and 16, C10",
 )
 CLAIMED["C13"] = (
     "dominating-guard analysis (normalised conditions) for negated-count subscripts; abstract interpretation of svd_truncated over shaped tokens for the truncation bookkeeping",
